@@ -8,12 +8,12 @@ Open Scope N_scope.
 Inductive case := CDeep (depth : N) (outcome : N).
 
 (* known-finding class 2 of C16 (stack-exhaustion-on-deep-nesting): the process died on a document nested at least
-   1000 levels deep; a death at a smaller depth, or a rejection of a well-formed document, is a new violation *)
+   400 levels deep; a death at a smaller depth, or a rejection of a well-formed document, is a new violation *)
 Definition code (c : case) : N :=
   match c with
   | CDeep depth outcome =>
       if outcome =? 0 then 0
-      else if (outcome =? 2) && (1000 <=? depth) then 2 + 4 * 2
+      else if (outcome =? 2) && (400 <=? depth) then 2 + 4 * 2
       else 2
   end.
 Definition codes (cs : list case) : list N := map code cs.
